@@ -2,7 +2,9 @@
 
 ATOMS = ['x', 'foo', '-a', '12', '1.5em', '50%', '#h', '"s"', "'t'", '"a;b}"', "'{('", 'url(u)', 'url("v;w")', 'U+0-7F',
          ':', ',', '.', '>', '+', '~', '*', '=', '!', '$', '%', '&', '/', '|', '/*c*/', '/*;}*/', '~=', '|=', '^=',
-         '<!--', '-->', '@kw', '\\{', 'a\\;b']
+         '<!--', '-->', '@kw', '\\{', 'a\\;b',
+         # identifiers whose value is a delimiter (hex escapes are resolved by the tokenizer): names, not delimiters
+         '\\7b ', '\\7d ', '\\3b ', '\\28 ', '\\29 ', '\\5b ', '\\5d ', '\\3a ', '\\21 ', '\\2c ', '\\3b\\7d ']
 POISON = ['$', '&', '12', '"s"', '1.5em', '50%', '=']          # never valid at depth 0 of a selector / prelude
 FIRST_KINDS = ['ident', 'number', 'dimension', 'percentage', 'hash', 'string', 'uri', 'function', 'paren', 'bracket',
                'char$', 'char!', 'char:', 'char.', 'char*', 'char=', 'char>', 'includes', 'urange']
